@@ -116,6 +116,21 @@ def check(case, rec):
     other_axis = "observation" if axis == "sample" else "sample"
     with tempfile.TemporaryDirectory(prefix="vf-c14-", dir=TMP) as d:
         h5p = os.path.join(d, "t.biom")
+        if "hdf5" in variant and len(src["obs"]) % 2:
+            # the path held another table a moment ago, and a subset of it
+            # was read: what is read next is what the path holds now
+            from biom import Table as _T
+            other = _T(np.array([[5.0, 0.0], [0.0, 7.0]]),
+                       ["earlier-o1", "earlier-o2"],
+                       ["earlier-s1", "earlier-s2"],
+                       [{"k": "x"}, {"k": "y"}], [{"k": "z"}, {"k": "w"}])
+            with h5py.File(h5p, "w") as f:
+                other.to_hdf5(f, "earlier")
+            with h5py.File(h5p, "r") as f:
+                _T.from_hdf5(f, ids=["earlier-s1"], axis="sample")
+                _T.from_hdf5(f, ids=["earlier-o2"], axis="observation",
+                             subset_with_metadata=False)
+            rec.cls("path-held-another-table-before")
         with h5py.File(h5p, "w") as f:
             t.to_hdf5(f, "vf")
         jtext = t.to_json("vf")
